@@ -201,3 +201,105 @@ pub fn writer_op<'a, S: BitmapSlice>(
         other => panic!("harness: unknown async writer op {}", other),
     }
 }
+
+// ------------------------------------------------------------------------------------------------
+// the forwarding impl `AsyncFileReadWriteVolatile for Arc<T>`: driven in a CHILD process, because a crash
+// (stack overflow) of the code under test must be recorded as data, not take the harness down
+
+const P_SIZE: usize = 64;
+const P_SALT: usize = 33;
+const P_X: u64 = 5;
+const P_V: u8 = 9;
+pub const ARC_METHODS: [&str; 4] =
+    ["async_read_at_volatile", "async_read_vectored_at_volatile", "async_write_at_volatile", "async_write_vectored_at_volatile"];
+
+/// child side: one call of `method` through an `Arc<async_file::File>`; prints one JSON line
+pub fn arc_child(method: &str) {
+    use crate::obs::*;
+    use std::sync::Arc;
+    let method = method.to_string();
+    let h = std::thread::Builder::new()
+        .stack_size(512 * 1024)
+        .spawn(move || {
+            let reading = method.contains("read");
+            let content: Vec<u8> =
+                if reading { (0..P_SIZE).map(|i| ((i + P_SALT) % M as usize) as u8).collect() } else { vec![FPOISON; P_SIZE] };
+            let mut mf = MFile::new("arcprobe", content);
+            let fd = mf.f.as_raw_fd();
+            let lens: Vec<usize> = if method.contains("vectored") { vec![4, 6, 3] } else { vec![13] };
+            let mut mem: Vec<Vec<u8>> = lens
+                .iter()
+                .scan(0usize, |at, &l| {
+                    let v = if reading { vec![0xEEu8; l] } else { ramp_bytes(((P_V as usize + *at) % M as usize) as u8, l) };
+                    *at += l;
+                    Some(v)
+                })
+                .collect();
+            let bufs: Vec<FileVolatileBuf> = mem
+                .iter_mut()
+                .map(|b| unsafe { if reading { FileVolatileBuf::new(b) } else { let l = b.len(); FileVolatileBuf::new_with_data(b, l) } })
+                .collect();
+            let res: io::Result<usize> = RT.with(|rt| {
+                rt.block_on(async {
+                    let f = Arc::new(real_file(fd));
+                    match method.as_str() {
+                        "async_read_at_volatile" => AsyncFileReadWriteVolatile::async_read_at_volatile(&f, bufs[0], P_X).await.0,
+                        "async_read_vectored_at_volatile" => AsyncFileReadWriteVolatile::async_read_vectored_at_volatile(&f, bufs, P_X).await.0,
+                        "async_write_at_volatile" => AsyncFileReadWriteVolatile::async_write_at_volatile(&f, bufs[0], P_X).await.0,
+                        _ => AsyncFileReadWriteVolatile::async_write_vectored_at_volatile(&f, bufs, P_X).await.0,
+                    }
+                })
+            });
+            match res {
+                Err(e) => println!("{}", serde_json::json!({"res":"err","err":format!("{:?}", e.kind())})),
+                Ok(k) => {
+                    if reading {
+                        let all: Vec<u8> = mem.concat();
+                        println!("{}", serde_json::json!({"res":"ok","ret":k,"out":ramps(&all[..k.min(all.len())])}));
+                    } else {
+                        let (d, _) = mf.diff();
+                        println!("{}", serde_json::json!({"res":"ok","ret":k,"fdiff":d}));
+                    }
+                }
+            }
+        })
+        .unwrap();
+    let _ = h.join();
+}
+
+/// parent side: one Probe event per forwarded method
+pub fn arc_probes(tr: &mut vharness::util::Trace, seg: u64) -> usize {
+    use std::os::unix::process::ExitStatusExt;
+    let exe = std::env::current_exe().expect("current_exe");
+    for m in ARC_METHODS {
+        let out = std::process::Command::new(&exe).args(["arc-child", m]).output().expect("spawn probe");
+        let mut ev = serde_json::Map::new();
+        ev.insert("e".into(), serde_json::json!("Probe"));
+        ev.insert("seg".into(), serde_json::json!(seg));
+        ev.insert("op".into(), serde_json::json!(format!("arc.{}", m)));
+        ev.insert("n".into(), serde_json::json!(13));
+        ev.insert("x".into(), serde_json::json!(P_X));
+        ev.insert("salt".into(), serde_json::json!(P_SALT));
+        ev.insert("v".into(), serde_json::json!(P_V));
+        ev.insert("reading".into(), serde_json::json!(m.contains("read")));
+        let line = String::from_utf8_lossy(&out.stdout).lines().last().unwrap_or("").to_string();
+        match (out.status.signal(), serde_json::from_str::<serde_json::Value>(&line)) {
+            (Some(sig), _) => {
+                ev.insert("res".into(), serde_json::json!("crash"));
+                ev.insert("signal".into(), serde_json::json!(sig));
+            }
+            (None, Ok(serde_json::Value::Object(o))) => {
+                for (k, v) in o {
+                    ev.insert(k, v);
+                }
+            }
+            _ => {
+                ev.insert("res".into(), serde_json::json!("crash"));
+                ev.insert("signal".into(), serde_json::json!(out.status.code().unwrap_or(-1)));
+            }
+        }
+        tr.emit(&serde_json::Value::Object(ev));
+    }
+    tr.flush();
+    ARC_METHODS.len()
+}
